@@ -9,6 +9,7 @@
 (***************************************************************************)
 EXTENDS Codec, Json, IOUtils
 
+TheNames == JsonDeserialize(IOEnv.VERIF_NAMES)
 TheMod == JsonDeserialize(IOEnv.VERIF_MODULE)
 Scn == ndJsonDeserialize(IOEnv.VERIF_SCENARIOS)
 Log == ndJsonDeserialize(IOEnv.VERIF_TRACE)
